@@ -6,6 +6,7 @@ package main
 
 import (
 	"fmt"
+	"hash/fnv"
 	"math"
 	"math/big"
 	"reflect"
@@ -142,11 +143,26 @@ type obs struct {
 	v    [5][]attrObs // v[1..4]
 }
 
+// matID: the identity the harness gave the material — as long as the material's CONTENT is what the harness made it;
+// a material whose fields were changed through the pointer reports another (deterministic) number
 func matID(m *modeling.Material) int {
 	if m == nil {
 		return -1
 	}
-	return int(m.SpecularHighlight)
+	id := int(m.SpecularHighlight)
+	if id >= 0 && float64(id) == m.SpecularHighlight && reflect.DeepEqual(*m, *material(id)) {
+		return id
+	}
+	str := func(p *string) string {
+		if p == nil {
+			return "<nil>"
+		}
+		return *p
+	}
+	h := fnv.New32a()
+	fmt.Fprintf(h, "%q|%v|%v|%v|%v|%v|%v|%q|%q|%q", m.Name, m.AmbientColor, m.DiffuseColor, m.SpecularColor,
+		m.SpecularHighlight, m.OpticalDensity, m.Transparency, str(m.ColorTextureURI), str(m.NormalTextureURI), str(m.SpecularTextureURI))
+	return 1000000 + int(h.Sum32()%1000000)
 }
 
 // observe reads everything the property lists through the public API: Topology, Indices, Materials,
